@@ -33,11 +33,19 @@ def blocks : List (List Nat) → Option (List (List Nat × List Nat))
     else none
 termination_by ls => ls.length
 
-/-- drop a trailing record whose sequence is empty (note N-C16: all readers do) -/
-def dropEmptyLast (bs : List (List Nat × List Nat)) : List (List Nat × List Nat) :=
-  match bs.getLast? with
-  | some (_, []) => bs.dropLast
-  | _ => bs
+/-- no records: no header at all, or a file that consists of one single header followed by no sequence.
+    (A last header without a sequence AFTER other records is not a special case: it is a record of length 0 and
+    falls under "unequal lengths" unless all records are empty.) -/
+def noRecords : List (List Nat × List Nat) → Bool
+  | [] => true
+  | [(_, [])] => true
+  | _ => false
+
+/-- unequal record lengths: some record - the last one included, an empty one included - differs in length
+    from the first -/
+def unequalLengths : List (List Nat × List Nat) → Bool
+  | [] => false
+  | r :: rs => rs.any fun x => x.2.length != r.2.length
 
 /-- the conditions under which the property demands an error (for an encoded reader):
     no leading header, a header without ID, a symbol outside the alphabet, unequal lengths, no records -/
@@ -46,13 +54,10 @@ def mustReject (hard : Bool) (text : List Nat) : Bool :=
   match blocks lines with
   | none => true
   | some bs =>
-    let recs := dropEmptyLast bs
-    recs.isEmpty ||
+    noRecords bs ||
     bs.any (fun b => (firstField b.1).isNone) ||
     bs.any (fun b => b.2.any fun c => (baseSet hard c).isNone) ||
-    (match recs with
-     | [] => true
-     | r :: rs => rs.any fun x => x.2.length != r.2.length)
+    unequalLengths bs
 
 /-- the same for the plain-text reader, which does not look at the alphabet: no leading header, a header without ID,
 unequal lengths, no records -/
@@ -61,12 +66,9 @@ def mustRejectPlain (text : List Nat) : Bool :=
   match blocks lines with
   | none => true
   | some bs =>
-    let recs := dropEmptyLast bs
-    recs.isEmpty ||
+    noRecords bs ||
     bs.any (fun b => (firstField b.1).isNone) ||
-    (match recs with
-     | [] => true
-     | r :: rs => rs.any fun x => x.2.length != r.2.length)
+    unequalLengths bs
 
 def hasBlankLine (text : List Nat) : Bool := (splitLines text).any (·.isEmpty)
 
